@@ -44,7 +44,8 @@ SPEC = {
             "samply-symbols/src/mapped_path.rs::hg_path,git_path,s3_path,cargo_path,parse_special_path"],
     "C09": ["samply-api/src/source/mod.rs", "samply-symbols/src/lib.rs::load_source_file", "samply-symbols/src/symbol_map.rs", "samply-api/src/lib.rs"],
     "C10": ["samply-symbols/src/breakpad/index.rs", "samply-symbols/src/breakpad/symbol_map.rs"],
-    "C11": ["fxprof-processed-profile/src/lib_mappings.rs", "fxprof-processed-profile/src/profile.rs::resolve_frame_address,add_lib_mapping,remove_lib_mapping,add_kernel_lib_mapping,remove_kernel_lib_mapping,clear_process_lib_mappings"],
+    # fxprof-processed-profile/src/lib_mappings.rs is not pinned: it is translated on every run (tools/xlate_lm.py) and the translation is proved equal to the model
+    "C11": ["fxprof-processed-profile/src/process.rs::convert_address,add_lib_mapping,remove_lib_mapping,remove_all_lib_mappings", "fxprof-processed-profile/src/profile.rs::resolve_frame_address,add_lib_mapping,remove_lib_mapping,add_kernel_lib_mapping,remove_kernel_lib_mapping,clear_process_lib_mappings"],
     "C12": ["samply/src/shared/context_switch.rs"],
     "C13": ["samply-symbols/src/cache.rs", "samply-symbols/src/chunked_read_buffer_manager.rs"],
     # stack_depth_limiting_frame_iter.rs is not pinned: it is translated on every run (tools/xlate_fl.py) and the translation is proved equal to the model
